@@ -210,6 +210,7 @@ package generator
 //@   shape declType = decl(T,none) | decl(T,struct) | decl(T,addl2) | decl(Plain,none) | decl(Plain,addl)
 //@   shape output = decls(T) | decls(T,Plain) | decls(Plain) | decls(Plain,Plain_0) | decls(Plain,Plain_0?) | decls(Plain,Plain_0,Plain_1)
 //@   requires declared: map_has(output.declsByName, declType.Name)
+//@   assigns *output.file
 //@   ensures [C01,C19] parses: parses(emitted(out)) && out.indent == 1
 //@   ensures [C19] receiver-last: recv_written_last(emitted(out))
 //@   ensures [C19] error-returns: error_returns_only(emitted(out))
@@ -226,6 +227,7 @@ package generator
 //@   shape declType = decl(T,none) | decl(T,struct) | decl(T,addl2) | decl(Plain,none) | decl(Plain,addl)
 //@   shape output = decls(T) | decls(T,Plain) | decls(Plain) | decls(Plain,Plain_0) | decls(Plain,Plain_0?) | decls(Plain,Plain_0,Plain_1)
 //@   requires declared: map_has(output.declsByName, declType.Name)
+//@   assigns *output.file
 //@   ensures [C01,C19] parses: parses(emitted(out)) && out.indent == 1
 //@   ensures [C19] receiver-last: recv_written_last(emitted(out))
 //@   ensures [C19] error-returns: error_returns_only(emitted(out))
